@@ -2,10 +2,12 @@ void registerNum();
 void registerXPath();
 void registerTransform();
 void registerSerialize();
+void registerNodeList();
 void registerAll()
 {
     registerNum();
     registerXPath();
     registerTransform();
     registerSerialize();
+    registerNodeList();
 }
